@@ -60,6 +60,7 @@ type Obligation struct {
 	Goal       string // term that must be valid in the context
 	CtxLen     int
 	Quantified bool
+	Success    bool // cover of a return with a literal nil error
 	Retried    bool // undecided in the parallel pass, tried again with few neighbours
 	enc        *fnEnc
 	// results
@@ -234,7 +235,13 @@ func (e *fnEnc) loopInvariantTerm(li *loopInfo, v ssa.Value) func() string {
 	return nil
 }
 
+type mergeRec struct {
+	conds []string // len(heaps)-1 conditions: heaps[i] if conds[i], else the rest
+	heaps []string
+}
+
 type fnEnc struct {
+	mergeInfo map[string]mergeRec // merged memory name -> conditions and the memories merged
 	loadDefs map[string]string // names defined as a load of a reference / slice from a memory
 	reachAt map[*ssa.BasicBlock]string // reachability of each block at its entry
 	transDone bool // the reflexive/transitive obligations of [transitive:] postconditions were emitted
@@ -822,6 +829,20 @@ func (e *fnEnc) mergePreds(b *ssa.BasicBlock) *state {
 			term = ite(conds[i], e.heap(e.out[preds[i]], k, cell), term)
 		}
 		e.setHeap(st, k, cell, term)
+		if len(preds) <= 4 {
+			// reads can be pushed through the merge (selectFwd)
+			if e.mergeInfo == nil {
+				e.mergeInfo = map[string]mergeRec{}
+			}
+			mr := mergeRec{}
+			for i, p := range preds {
+				mr.heaps = append(mr.heaps, e.heap(e.out[p], k, cell))
+				if i < len(preds)-1 {
+					mr.conds = append(mr.conds, conds[i])
+				}
+			}
+			e.mergeInfo[st.heap[k]] = mr
+		}
 	}
 	// next
 	nterm := e.out[preds[len(preds)-1]].next
